@@ -26,7 +26,7 @@ MANIFEST = dict(
 BOUNDS = {'quick': dict(T=5, Tp=3, Tt=2), 'thorough': dict(T=6, Tp=4, Tt=3)}
 BOUNDS['replay'] = BOUNDS['quick']
 CHARS = ['a', 'b', 'c']
-STYLES = ['peaky', 'margin1', 'runnerup', 'tie_up']
+STYLES = ['peaky', 'margin1', 'runnerup', 'tie_up', 'huge']
 H = 8
 _ENG = {}
 
@@ -49,6 +49,10 @@ def scores_for(paths, C, style):
     elif style == 'margin1':
         S = np.full((N, C, T), 100, dtype=np.int64)
         hi = 101
+    elif style == 'huge':
+        # un-normalised scores of large magnitude, beyond any constant a decoder might use as "certainly the largest"
+        S = np.full((N, C, T), -3000, dtype=np.int64)
+        hi = 5000
     else:
         S = np.full((N, C, T), 20, dtype=np.int64)
         hi = 150
@@ -149,45 +153,49 @@ def check_case(case, ctx):
     if not torch.equal(t, before):
         ctx.violation('greedy-equals-collapse', f'{K}/greedy_decode_ctc/modifies-input', 'the score tensor passed in was modified')
 
-    # (2) the real engine on a stub network that reproduces the tensor
-    eng = engine(C)
-    img = np.zeros((len(paths), H, T, 3), dtype=np.uint8)
-    img[:, :C, :, 0] = S.astype(np.uint8)
-    dec, logits = eng.run_ocr(img)
-    ctx.executed()
-    if logits.shape != (len(paths), T, C) or np.abs(logits - S.transpose(0, 2, 1)).max() > 1e-3:
-        # is it the stub (harness) or the engine?  ask the network itself, the way run_ocr feeds it
-        with torch.no_grad():
-            direct = eng.model(torch.from_numpy(img).float().div(255.0).permute(0, 3, 1, 2)).numpy()
-        if direct.shape != S.shape or np.abs(direct - S).max() > 1e-3:
-            from mc.core import HarnessError
-            raise HarnessError('stub network does not reproduce the enumerated tensor')
-        ctx.violation('engine-and-standalone-agree', f'{K}/engine.run_ocr/returned-logits-are-not-the-network-outputs',
-                      f'PytorchEngineLineOCR.run_ocr, batch of {len(paths)} lines, style {style}: returned logits of shape {logits.shape} differ from '
-                      f'the network output (shape {S.transpose(0, 2, 1).shape}) it decoded')
-        return
-    bad = first_bad(list(dec))
-    if bad:
-        ctx.violation('engine-and-standalone-agree', f'{K}/engine.run_ocr/{"count" if "outputs for" in bad else "text"}',
-                      f'PytorchEngineLineOCR.run_ocr, batch of {len(paths)} lines, style {style}: {bad}')
-    if len(paths) <= 3:
-        # history: the logits handed out for this batch must stay what they were after the engine has processed another batch
-        held, snap = logits, logits.copy()
-        other = img[::-1].copy()
-        other[:, :C, :, 0] = np.roll(other[:, :C, :, 0], 1, axis=1)
-        eng.run_ocr(other)
+    if style == 'huge':
+        ctx.tag('huge-scores')
+        dec = got
+    else:
+        # (2) the real engine on a stub network that reproduces the tensor (8-bit pixels carry the scores: not for the 'huge' style)
+        eng = engine(C)
+        img = np.zeros((len(paths), H, T, 3), dtype=np.uint8)
+        img[:, :C, :, 0] = S.astype(np.uint8)
+        dec, logits = eng.run_ocr(img)
         ctx.executed()
-        if not np.array_equal(held, snap):
-            ctx.violation('engine-and-standalone-agree', f'{K}/engine.run_ocr/returned-logits-change-after-the-next-batch',
-                          f'run_ocr, batch of {len(paths)} lines: the logits returned for this batch were overwritten by the following run_ocr call')
-        # a charset with the zero-width space in the middle is mapped like any other symbol
-        if C == 4 and style == 'peaky':
-            dec2, _ = engine(C, zw=True).run_ocr(img)
+        if logits.shape != (len(paths), T, C) or np.abs(logits - S.transpose(0, 2, 1)).max() > 1e-3:
+            # is it the stub (harness) or the engine?  ask the network itself, the way run_ocr feeds it
+            with torch.no_grad():
+                direct = eng.model(torch.from_numpy(img).float().div(255.0).permute(0, 3, 1, 2)).numpy()
+            if direct.shape != S.shape or np.abs(direct - S).max() > 1e-3:
+                from mc.core import HarnessError
+                raise HarnessError('stub network does not reproduce the enumerated tensor')
+            ctx.violation('engine-and-standalone-agree', f'{K}/engine.run_ocr/returned-logits-are-not-the-network-outputs',
+                          f'PytorchEngineLineOCR.run_ocr, batch of {len(paths)} lines, style {style}: returned logits of shape {logits.shape} differ from '
+                          f'the network output (shape {S.transpose(0, 2, 1).shape}) it decoded')
+            return
+        bad = first_bad(list(dec))
+        if bad:
+            ctx.violation('engine-and-standalone-agree', f'{K}/engine.run_ocr/{"count" if "outputs for" in bad else "text"}',
+                          f'PytorchEngineLineOCR.run_ocr, batch of {len(paths)} lines, style {style}: {bad}')
+        if len(paths) <= 3:
+            # history: the logits handed out for this batch must stay what they were after the engine has processed another batch
+            held, snap = logits, logits.copy()
+            other = img[::-1].copy()
+            other[:, :C, :, 0] = np.roll(other[:, :C, :, 0], 1, axis=1)
+            eng.run_ocr(other)
             ctx.executed()
-            want2 = [''.join(CHARS_ZW[c] for c in collapse(p, blank)) for p in paths]
-            if list(dec2) != want2:
-                ctx.violation('greedy-equals-collapse', f'{K}/engine.run_ocr/charset-with-zero-width-space',
-                              f'engine with characters {CHARS_ZW!r}: paths {paths} -> {list(dec2)!r}, the character table gives {want2!r}')
+            if not np.array_equal(held, snap):
+                ctx.violation('engine-and-standalone-agree', f'{K}/engine.run_ocr/returned-logits-change-after-the-next-batch',
+                              f'run_ocr, batch of {len(paths)} lines: the logits returned for this batch were overwritten by the following run_ocr call')
+            # a charset with the zero-width space in the middle is mapped like any other symbol
+            if C == 4 and style == 'peaky':
+                dec2, _ = engine(C, zw=True).run_ocr(img)
+                ctx.executed()
+                want2 = [''.join(CHARS_ZW[c] for c in collapse(p, blank)) for p in paths]
+                if list(dec2) != want2:
+                    ctx.violation('greedy-equals-collapse', f'{K}/engine.run_ocr/charset-with-zero-width-space',
+                                  f'engine with characters {CHARS_ZW!r}: paths {paths} -> {list(dec2)!r}, the character table gives {want2!r}')
 
     # (3,4) stand-alone decoders, line by line
     letters = chars + [BLANK_SYMBOL]
@@ -230,5 +238,5 @@ def describe(tier):
         'bounds': b, 'alphabets': {'styles': STYLES, 'classes': [2, 3, 4]},
         'assumptions': ['with exact ties the arg-max is the first maximal index (numpy / torch convention)', 'scores are integers 0..255 so that they can be painted into uint8 line images'],
         'min_nontrivial': 50,
-        'required_tags': ['repeat-merged', 'first-frame-non-blank', 'all-blank-line', 'batch-with-empty-and-non-empty-lines'],
+        'required_tags': ['huge-scores', 'repeat-merged', 'first-frame-non-blank', 'all-blank-line', 'batch-with-empty-and-non-empty-lines'],
     }
